@@ -1116,6 +1116,11 @@ func (a area) runFamilyCase(c *core.Ctx, r *rand.Rand) {
 			} else {
 				fc.viewAll()
 			}
+			if r.Intn(4) == 0 {
+				// restart between two steps: the version comes back from the manifest, every reader is cold
+				fc.reopen()
+				fc.viewAll()
+			}
 			continue
 		}
 		// flush: a subset of the metrics (so files cover different key ranges)
